@@ -1,5 +1,6 @@
 import BqVerif.Proofs.Control
 import BqVerif.Proofs.BatchReplace
+import BqVerif.Proofs.BatchGeneral
 import BqVerif.Proofs.ForEach
 import BqVerif.Proofs.ErrorBound
 import BqVerif.Generated.Fields
@@ -10,7 +11,7 @@ Every theorem is about the executable model `BqVerif.Control` (`Model/Control.le
 of `bqskit/passes/control/*.py`, `bqskit/compiler/{workflow,passdata,basepass}.py`, on top of the
 list-of-cycles circuit model `BqVerif.Circ` (incl. `Circ.batchReplace`); the model is tied to the real
 passes by `harness/c11.py`, and the two tables `Generated/Fields.lean` are re-read from the live
-source on every run.  Proofs live in `Proofs/{Control,BatchReplace,ForEach,ErrorBound}.lean`.
+source on every run.  Proofs live in `Proofs/{Control,BatchReplace,BatchGeneral,ForEach,ErrorBound}.lean`.
 
 Vocabulary
 * `Env`  what the leaf passes, the two-circuit callables (`DoThenDecide` condition, `ParallelDo`
@@ -220,6 +221,25 @@ theorem C11_batch_replace_same_loc (c : Circ) (l : List Tgt) (h : SameLocBatch c
         (⟨c.radixes, c.cycles.mapIdx (fun k cy => cy.map (r k))⟩, .ok ()) :=
   batchReplace_sameLoc c l h
 
+/-- **General case: the shifted points hit the intended operations.**  Items in any order, each a
+point `(k, q)` of an operation `o` of the circuit (distinct operations), each replacement `n`
+passing `check_valid_operation` and sharing a qudit with `o` (any location otherwise).  Then
+`batch_replace` does not raise; it processes the items in the order `Ts` (a permutation of the input,
+sorted by cycle) and at every step the point `(k − shrink, q)` — `shrink` = cycles before the batch
+minus cycles now, negative when cycles were opened — holds exactly `o`, although earlier steps
+removed cycles (popped operation alone) or opened new ones (replacement did not fit).
+`brFound` is the fold of `batch_replace` instrumented with the operation found at each step. -/
+theorem C11_batch_replace_general (c : Circ) (T : List GT)
+    (hdisj : ∀ cy ∈ c.cycles, DisjCy cy)
+    (hmem : ∀ t ∈ T, ∃ cy, c.cycles[t.k]? = some cy ∧ t.o ∈ cy)
+    (hnodup : (T.map GT.key).Nodup)
+    (hside : ∀ t ∈ T, t.q ∈ t.o.loc ∧ t.q < c.numQudits ∧ c.checkValid t.n = .ok () ∧
+      disjointL t.o.loc t.n.loc = false) :
+    ∃ Ts : List GT, Ts.Perm T ∧ Ts.Pairwise (fun a b => a.k ≤ b.k) ∧
+      (c.batchReplace (T.map GT.item)).2 = .ok () ∧
+      brFound c.numCycles (c, .ok ()) (Ts.map GT.item) = Ts.map (fun t => some t.o) :=
+  batchReplace_general c T hdisj hmem hnodup hside
+
 /-! ## 5. ForEachBlockPass -/
 
 /-- ForEachBlockPass (big-step rule): unknown filter name raises before anything else; no collected
@@ -401,5 +421,87 @@ theorem C11_replace_filters (k : FilterKind) (m : MModel) (new : Circ) (old : Op
         · simp [h1, h2, ← isRespecting_iff, filterFn_eval_iff]
         · simp [h1, h2, ← isRespecting_iff]
       · simp [h1, ← isRespecting_iff]
+
+/-! ## non-vacuity: the hypotheses of the theorems above are satisfiable -/
+section NonVacuity
+
+/-- a small environment: leaf 0 appends an X gate on qudit 0, leaf 1 changes the final mapping, every
+other leaf raises; callable 0 always says no, callable 1 prefers fewer operations -/
+def exEnv : Env where
+  leaf := fun i s =>
+    if i == 0 then ({ s with circ := (s.circ.appendCore ⟨1, [], [0], [2]⟩).1 }, none)
+    else if i == 1 then ({ s with data := { s.data with finalMapping := [1, 0] } }, none)
+    else (s, some .runtime)
+  cond := fun i a b => if i == 0 then false else decide (a.numOps < b.numOps)
+  collect := fun _ _ _ => true
+  rfilt := fun _ _ _ _ => true
+  filters := [("always", .always)]
+  copyFields := genCopy
+  becomeFields := genBecome
+
+def exCirc : Circ := ⟨[2, 2], [[⟨6, [], [0, 1], [2, 2]⟩], [⟨1, [], [0], [2]⟩, ⟨2, [], [1], [2]⟩]]⟩
+def exSt : St := ⟨exCirc, PData.init exCirc⟩
+def exW : World := ⟨[true, true, false], [], [], [], []⟩
+
+-- fuel / while / do-while: a loop that runs twice
+example : ∃ r, exec exEnv 5 (.while .script (.leaf 0)) exW exSt = some r ∧ r.trace.length = 2 :=
+  ⟨_, rfl, rfl⟩
+example : ∃ r, Runs exEnv (.doWhile .script (.leaf 0)) exW exSt r ∧ r.trace.length = 3 :=
+  ⟨_, ⟨6, rfl⟩, rfl⟩
+
+-- a leaf that never raises (hypothesis `hok` of the count theorems), with the literal script shape
+example : ∀ s, (({ exEnv with leaf := fun _ s => (s, none) } : Env).leaf 0 s).2 = none := fun _ => rfl
+
+-- a rejected DoThenDecide whose body changed the final mapping and the circuit
+example : ∃ rb w', Runs exEnv (.seq [.leaf 0, .leaf 1]) exW exSt rb ∧ rb.out = .ok ∧
+    rb.st.data.finalMapping ≠ exSt.data.finalMapping ∧
+    evalCond exEnv (.fn 0) rb.w exSt.circ rb.st.circ = .ok (false, w') ∧
+    exEnv.copyFields = genCopy ∧ exEnv.becomeFields = genBecome :=
+  ⟨_, _, ⟨4, rfl⟩, rfl, by decide, rfl, rfl, rfl⟩
+
+-- ParallelDo: two awaited results, none raised
+example : ∃ (r0 r1 : Res), firstRaised [r0, r1] = none ∧
+    [0, 1].filterMap (fun i => (([(Tree.leaf 0, 0), (Tree.leaf 1, 1)].zip [r0, r1]).find?
+      (fun jr => jr.1.2 == i)).map (·.2)) = r0 :: [r1] :=
+  ⟨Res.skip exW exSt, Res.skip exW exSt, rfl, rfl⟩
+
+-- a same-location batch with one target (the CNOT of cycle 0 replaced by a CZ on (1, 0))
+example : SameLocBatch exCirc [(0, ⟨6, [], [0, 1], [2, 2]⟩, ⟨7, [], [1, 0], [2, 2]⟩)] where
+  disj := by decide
+  wf := by decide
+  mem := by decide
+  same := by unfold AllSame; decide
+  nodup := by decide
+
+-- a general batch: X on qudit 0 (cycle 1, not alone) replaced by a CNOT on (0, 1), which does not fit
+example : ∃ T : List GT, T ≠ [] ∧ (∀ cy ∈ exCirc.cycles, DisjCy cy) ∧
+    (∀ t ∈ T, ∃ cy, exCirc.cycles[t.k]? = some cy ∧ t.o ∈ cy) ∧ (T.map GT.key).Nodup ∧
+    (∀ t ∈ T, t.q ∈ t.o.loc ∧ t.q < exCirc.numQudits ∧ exCirc.checkValid t.n = .ok () ∧
+      disjointL t.o.loc t.n.loc = false) ∧
+    (exCirc.batchReplace (T.map GT.item)).1.numCycles = 3 :=
+  ⟨[⟨1, 0, ⟨1, [], [0], [2]⟩, ⟨6, [], [0, 1], [2, 2]⟩⟩], by simp, by decide, by decide, by decide,
+    by decide, by decide⟩
+
+-- ForEach on a circuit satisfying Inv terminates without raising (collect everything, always replace)
+example : ∃ r, Runs exEnv (.forEach ⟨false, .fn 0, .named "always"⟩ (.leaf 0)) exW exSt r ∧
+    r.out = .ok ∧ r.trace.length = 3 := ⟨_, ⟨3, rfl⟩, rfl, rfl⟩
+
+-- the error bound: E = 1/10, S = 1/5, truth = 1/4
+example : ∃ (d : PData) (S truth : ℚ), truth ≤ d.error + S ∧ 0 < d.error * S :=
+  ⟨{ PData.init exCirc with error := 1 / 10 }, 1 / 5, 1 / 4, by norm_num, by norm_num⟩
+
+-- a non-trivial bi-invariant pseudo-metric on a group (the discrete metric on ℤ written multiplicatively)
+example : ∃ (d : Multiplicative ℤ → Multiplicative ℤ → ℕ),
+    (∀ g a b, d (g * a) (g * b) = d a b) ∧ (∀ g a b, d (a * g) (b * g) = d a b) ∧
+    (∀ a b c, d a c ≤ d a b + d b c) ∧ (∀ a, d a a = 0) ∧ ∃ a b, d a b ≠ 0 := by
+  refine ⟨fun a b => if a = b then 0 else 1, ?_, ?_, ?_, ?_, ?_⟩
+  · intro g a b; simp
+  · intro g a b; simp
+  · intro a b c
+    by_cases h1 : a = b <;> by_cases h2 : b = c <;> by_cases h3 : a = c <;> simp_all
+  · intro a; simp
+  · exact ⟨Multiplicative.ofAdd 0, Multiplicative.ofAdd 1, by decide⟩
+
+end NonVacuity
 
 end BqVerif.C11
